@@ -92,6 +92,14 @@ def main():
     ok = len(body) == 2 and len(cmp_) == 2
     print('%-4s %s (%d loop-body paths, %d compare start with end of the same segment)' % ('OK' if ok else 'BAD', 'models::pairs_loop', len(body), len(cmp_)))
     bad += not ok
+    # array_loop: `for (x, w) in [(a, 1), (b, 10)]` is run element by element
+    got = rows(fx, 'models::array_loop')
+    rets = sorted(r for (e, c, r) in got or () if e == 'return')
+    ok = got is not None and len(got) == 4 and all(e == 'return' for (e, c, r) in got) and \
+        sorted(tuple(sorted(c)) for (e, c, r) in got) == sorted([('gt(a, 0)=False', 'gt(b, 0)=False'), ('gt(a, 0)=False', 'gt(b, 0)=True'),
+                                                                  ('gt(a, 0)=True', 'gt(b, 0)=False'), ('gt(a, 0)=True', 'gt(b, 0)=True')])
+    print('%-4s %s %s' % ('OK' if ok else 'BAD', 'models::array_loop', rets))
+    bad += not ok
     print('%d model controls not OK' % bad)
     sys.exit(1 if bad else 0)
 
